@@ -1363,7 +1363,14 @@ class IndexedAdvancedHTMLParser(AdvancedHTMLParser):
 
         if useIndex is True and self.indexClassNames is True:
 
-            elements = self._classNameMap.get(className, [])
+            # Generate list of all classnames to match
+            classNames = [x.strip() for x in className.strip().split(' ') if x.strip()]
+
+            # The index answers the first name, any other names are checked on those elements
+            elements = self._classNameMap.get(classNames.pop(0), [])
+
+            if len(classNames) > 0:
+                elements = [ em for em in elements if all(matchClassName in em.classList for matchClassName in classNames) ]
 
             if isFromRoot is False:
                 _hasTagInParentLine = self._hasTagInParentLine
